@@ -159,15 +159,41 @@ func c18HelperIn(c *Ctx, fn *ssa.Function) (bool, string) {
 			inner = l
 		}
 	}
-	if inner == nil {
-		return false, "no range loop over the second parameter nested in the loop over the first"
-	}
 	A := model.NewAnalysis(fn)
 	translateAll(A)
 	var eq []int
-	for i, at := range A.Atoms {
-		if at.Kind == "eq" && ((elemOf(at.X, inner) && elemOf(at.Y, outer)) || (elemOf(at.Y, inner) && elemOf(at.X, outer))) {
-			eq = append(eq, i)
+	if inner == nil {
+		// the scan of the second list may sit in a membership helper of its own (verified separately: true only across
+		// an equality of its string with an element of its list): member(ks, x) with x the current element
+		members := cssMembers(c)
+		for i, at := range A.Atoms {
+			if at.Kind != "val" {
+				continue
+			}
+			cl, ok := at.Resolve(at.X).(*ssa.Call)
+			if !ok {
+				continue
+			}
+			cal := cl.Common().StaticCallee()
+			if cal == nil || len(cl.Common().Args) != 2 {
+				continue
+			}
+			m := members[cal.Name()]
+			if m == nil || m.fn != cal || !m.verified {
+				continue
+			}
+			if cl.Common().Args[1-m.strIdx] == ssa.Value(fn.Params[1]) && elemOf(cl.Common().Args[m.strIdx], outer) {
+				eq = append(eq, i)
+			}
+		}
+		if len(eq) == 0 {
+			return false, "no range loop over the second parameter nested in the loop over the first (and no verified membership helper applied to the current element and the second list)"
+		}
+	} else {
+		for i, at := range A.Atoms {
+			if at.Kind == "eq" && ((elemOf(at.X, inner) && elemOf(at.Y, outer)) || (elemOf(at.Y, inner) && elemOf(at.X, outer))) {
+				eq = append(eq, i)
+			}
 		}
 	}
 	if len(eq) == 0 {
@@ -227,7 +253,9 @@ func c18HelperIn(c *Ctx, fn *ssa.Function) (bool, string) {
 			if st == nil || pa.Empty(st) {
 				continue
 			}
-			if ok, cex := q.Holds(st, pa.AtomF(ev)); !ok {
+			// (the state is the one before the edge's own effect: an equality established by the back edge's own
+			// condition counts)
+			if ok, cex := q.Holds(st, pa.Or(pa.AtomF(ev), ef)); !ok {
 				return false, fmt.Sprintf("the loop over the first list can move on to the next element although no element of the second list compared equal to the current one in this iteration (state %s at the back edge from block %d)", cex, p.Index)
 			}
 		}
